@@ -40,8 +40,9 @@ class C06(core.Property):
           'agnostic create_domain_metrics_for_each_client, HypCluster _cluster_losses on two layouts of the same '
           'datasets: padded_batch(bs in 1..9, buckets in 1..3), manual paddings incl. fully padded batches, '
           'plain unpadded batches; algorithm-level probes: real agnostic_federated_averaging (1-2 rounds, with/without '
-          'regularizer) and mime (1 round) under 2-3 padded-batch geometries of their statistics pass, domain weights / '
-          'server gradient / params compared across geometries and with the reference from the unpadded examples); non-trivial = has a padding row or more than one batch AND every wrong variant '
+          'regularizer), mime and mime_lite (1-2 rounds, sgd+momentum or adam as base optimizer) under 2-3 padded-batch '
+          'geometries of their statistics pass, domain weights / server gradient recovered from the optimizer state / '
+          'optimizer state / params compared across geometries and with the reference from the unpadded examples); non-trivial = has a padding row or more than one batch AND every wrong variant '
           '(mask ignored, rows counted instead of sum(mask), regularizer per batch) differs by > 100x tolerance; '
           'distinct by case digest')
   TRUSTED = ['jax.grad linearity (per-example losses/gradients computed by JAX on single unpadded examples are the '
@@ -63,10 +64,11 @@ class C06(core.Property):
     import jax.numpy as jnp
     from fedjax.core import client_datasets as cds
     from fedjax.core import models, optimizers, regularizers, tree_util
-    from fedjax.algorithms import mime, agnostic_fed_avg, hyp_cluster
+    from fedjax.algorithms import mime, mime_lite, agnostic_fed_avg, hyp_cluster
     self.jax, self.jnp, self.cds, self.models = jax, jnp, cds, models
     self.regs, self.tu, self.mime, self.afa, self.hc = regularizers, tree_util, mime, agnostic_fed_avg, hyp_cluster
     self.opts = optimizers
+    self.mime_lite = mime_lite
     self.MK = cds.EXAMPLE_MASK_KEY
     self.rng = jax.random.PRNGKey(7)
 
@@ -245,14 +247,14 @@ class C06(core.Property):
     return case
 
   def _algo_case(self, rng, tier, api=None, reg='random'):
-    api = api or rng.choice(['afa', 'afa', 'mime-algo'])
+    api = api or rng.choice(['afa', 'afa', 'mime-algo', 'mimelite-algo'])
     fam = rng.choice(['sq', 'sq', 'lin'])
     dx = 2
     nclients = rng.choice([1, 2, 3])
     clients = []
     for _ in range(nclients):
       clients.append([self._example(rng, dx, fam) for _ in range(rng.choice([1, 2, 3, 5, 7, 9]))])
-    if api == 'mime-algo' and rng.random() < 0.2:
+    if api != 'afa' and rng.random() < 0.2:
       clients.append([])                              # an empty client contributes weight 0
     flat = [e for c in clients for e in c]
     if api == 'afa':
@@ -264,7 +266,8 @@ class C06(core.Property):
     k = 3 if tier == 'thorough' else 2
     return {'kind': 'algo', 'api': api, 'fam': fam, 'dx': dx, 'params': self._params(rng, dx, fam), 'reg': reg,
             'clients': clients, 'geoms': rng.sample(ALGO_GEOMS, k),
-            'rounds': rng.choice([1, 2]) if api == 'afa' else 1}
+            'rounds': rng.choice([1, 2]) if api == 'afa' else rng.choice([1, 1, 2]),
+            'opt': None if api == 'afa' else rng.choice(['momentum', 'momentum', 'adam'])}
 
   def gen_cases(self, rng, tier):
     # the excluded point of the finiteness hypothesis (known finding) is probed on every run
@@ -286,11 +289,12 @@ class C06(core.Property):
             if api == 'domains':
               case['alpha'] = [1, 0.5, 2]
             yield case
-    n = {'quick': 160, 'thorough': 2300}.get(tier, 300)
+    n = {'quick': 120, 'thorough': 2300}.get(tier, 300)
     every = {'quick': 11, 'thorough': 25}.get(tier, 12)
     # the algorithm-level probes come first (one of each with a regularizer), then one every `every` cases
     yield self._algo_case(rng, tier, api='afa', reg=['l2', 0.25])
     yield self._algo_case(rng, tier, api='mime-algo', reg=['l2', 0.25])
+    yield self._algo_case(rng, tier, api='mimelite-algo', reg=['l2', 0.25])
     for i in range(n):
       if i % every == every - 1:
         yield self._algo_case(rng, tier)
@@ -442,10 +446,17 @@ class C06(core.Property):
             client_batch_hparams=train_hp, domain_batch_hparams=stat_hp,
             init_domain_weights=list(ALGO_INIT_WEIGHTS), domain_learning_rate=ALGO_DOMAIN_LR,
             init_domain_window=[1.0] * NUM_DOMAINS, regularizer=reg)
-      return self.mime.mime(per_example_loss=self.pel[fam], base_optimizer=opts.sgd(0.01, momentum=0.9),
-                            client_batch_hparams=train_hp, grads_batch_hparams=stat_hp,
-                            server_learning_rate=1.0, regularizer=reg)
-    return self._cached(('algo', case['api'], fam, case['reg'], dx, geom), make)
+      # a STATEFUL base optimizer: the server's full-batch gradient is only observable through its state
+      base = opts.adam(0.01) if case.get('opt') == 'adam' else opts.sgd(0.01, momentum=0.9)
+      build = self.mime.mime if case['api'] == 'mime-algo' else self.mime_lite.mime_lite
+      return build(per_example_loss=self.pel[fam], base_optimizer=base, client_batch_hparams=train_hp,
+                   grads_batch_hparams=stat_hp, server_learning_rate=1.0, regularizer=reg)
+    return self._cached(('algo', case['api'], case.get('opt'), fam, case['reg'], dx, geom), make)
+
+  def _first_moment(self, opt_state):
+    """momentum trace / Adam first moment of the base optimizer state, flattened like the params"""
+    st0 = opt_state[0]
+    return self.flat(st0.mu if hasattr(st0, 'mu') else st0.trace)
 
   def _eval_algo(self, case, ctx):
     api, fam, dx = case['api'], case['fam'], case['dx']
@@ -494,9 +505,15 @@ class C06(core.Property):
             o['prev_dw'] = [float(v) for v in np.asarray(prev.domain_weights)]
             o['counts'] = [float(v) for v in np.asarray(st.domain_window[-1])]
           else:
-            trace = jax.tree_util.tree_leaves(st.opt_state)
-            tr = jax.tree_util.tree_unflatten(jax.tree_util.tree_structure(st.params), trace)
-            o['server_grads'] = self.flat(tr)       # momentum trace after the first round = server_grads
+            # server_grads recovered from the optimizer state: momentum trace_t = g + 0.9 trace_{t-1};
+            # Adam mu_t = 0.9 mu_{t-1} + 0.1 g
+            new_m, old_m = self._first_moment(st.opt_state), self._first_moment(prev.opt_state)
+            if case.get('opt') == 'adam':
+              o['server_grads'] = [(a - 0.9 * b) / 0.1 for a, b in zip(new_m, old_m)]
+            else:
+              o['server_grads'] = [a - 0.9 * b for a, b in zip(new_m, old_m)]
+            o['opt_state'] = [float(v) for l in jax.tree_util.tree_leaves(st.opt_state)
+                              for v in np.asarray(l, dtype=np.float64).reshape(-1)]
           obs.append(o)
         runs.append(obs)
       except Exception as e:
@@ -540,8 +557,9 @@ class C06(core.Property):
           fg = [(sum(gi_[k] for _, g, _ in pcv for gi_ in g) / n + float(r[k])) if n else 0.0 for k in range(d)]
           ref = {'server_grads': fg}
           if not close(o['server_grads'], fg):
-            fail('server-grads', f'geometry {case["geoms"][gi]}: server full-batch gradient {o["server_grads"]} != '
-                                 f'{fg} = mean per-example gradient of the unpadded examples + regularizer gradient')
+            fail('server-grads', f'round {rnd + 1}, geometry {case["geoms"][gi]}: server full-batch gradient '
+                                 f'{o["server_grads"]} (recovered from the base optimizer state) != {fg} = mean '
+                                 f'per-example gradient of the unpadded examples + regularizer gradient (once)')
         ref_rounds.append(ref)
       refs.append(ref_rounds)
 
@@ -550,9 +568,10 @@ class C06(core.Property):
     good = [(g, o) for g, o in zip(case['geoms'], runs) if o is not None]
     for (g1, o1), (g2, o2) in zip(good, good[1:]):
       for rnd in range(case['rounds']):
-        for name in ('dw', 'server_grads', 'params'):
+        for name in ('dw', 'server_grads', 'opt_state', 'params'):
           if name in o1[rnd] and not close(o1[rnd][name], o2[rnd][name]):
-            what = {'dw': 'domain weights', 'server_grads': 'server gradient', 'params': 'server params'}[name]
+            what = {'dw': 'domain weights', 'server_grads': 'server gradient', 'params': 'server params',
+                    'opt_state': 'server optimizer state'}[name]
             fail('geometry', f'round {rnd + 1}: {what} depend on the padded batch geometry of the statistics pass: '
                              f'{g1} -> {o1[rnd][name]}, {g2} -> {o2[rnd][name]}')
             break
@@ -585,14 +604,14 @@ class C06(core.Property):
           _, r = self.reg_values(reg, o['prev_params'], d)
           a = ctx.drv.ask([line('c06.fullgrad', d, r, rows_c)])[0]
           mg = None if a is None else [float(v) for v in a]
-          model_out.append({'geom': geom, 'server_grads': mg})
+          model_out.append({'geom': geom, 'round': rnd + 1, 'server_grads': mg})
           if mg is None or not close(o['server_grads'], mg):
-            corr.append(f'geometry {geom}: implementation server gradient {o["server_grads"]} vs model {mg}')
+            corr.append(f'round {rnd + 1}, geometry {geom}: implementation server gradient {o["server_grads"]} vs model {mg}')
 
     n_ex = sum(len(c) for c in clients)
     multi_batch = any(-(-len(c) // g[0]) > 1 for c in clients for g in case['geoms'])
     tags = (f'api={api}', f'fam={fam}', 'reg' if case['reg'] else 'noreg', f'clients={len(clients)}',
-            f'rounds={case["rounds"]}', 'algo-level')
+            f'rounds={case["rounds"]}', f'opt={case.get("opt")}', 'algo-level')
     for obs in runs:
       if obs:
         for o in obs:
